@@ -168,8 +168,21 @@ static void OUT(int k) {
 /* ---- output buffer ---- */
 static char *obuf;
 static size_t olen, ocap;
+/* auxiliary output (the factorisation the library produced on a copy of the input): printed as line "<id>.fact" */
+static char *abuf;
+static size_t alen, acap;
+static int to_aux;
 static void oput(const char *s) {
   size_t n = strlen(s);
+  if (to_aux) {
+    if (alen + n + 1 > acap) {
+      acap = (alen + n + 1) * 2;
+      abuf = (char *)real_realloc(abuf, acap);
+    }
+    memcpy(abuf + alen, s, n + 1);
+    alen += n;
+    return;
+  }
   if (olen + n + 1 > ocap) {
     ocap = (olen + n + 1) * 2;
     obuf = (char *)real_realloc(obuf, ocap);
@@ -260,6 +273,8 @@ static void run_line(char *line) {
   }
   if (ntok == 0 || tok[0][0] == '#') return;
   olen = 0;
+  alen = 0;
+  to_aux = 0;
   if (ocap == 0) {
     ocap = 1024;
     obuf = (char *)real_malloc(ocap);
@@ -303,6 +318,7 @@ static void run_line(char *line) {
   }
   int fr = check_frames();
   free_args();
+  if (alen) printf("%s.fact ok%s\n", id, abuf);
   if (opt_leakcheck) {
     /* with the block cache emptied, everything allocated since the line started must be gone */
     m4ri_mmc_cleanup();
